@@ -17,7 +17,7 @@ open Ledger.Ctrl Ledger.Core Ledger.Ctrl.Examples
 theorem failed_write_no_effect (strict : Bool) (s : State) (op : Op)
     (h : (step strict s op).2.isError = true) : observe (step strict s op).1 = observe s := by
   unfold step observe
-  rcases forgeLog_ending strict op none false s with hu | ⟨st, log, _, hc⟩
+  rcases forgeLog_ending strict op none false s with ⟨hu, _, _⟩ | ⟨_, st, log, _, _, _, _, _, _, _, hc⟩
   · exact hu
   · exfalso
     have : (forgeLog strict op none false s).resp.isError = false := by rw [hc.2]; rfl
@@ -31,7 +31,7 @@ theorem dryrun_no_effect_same_answer (strict : Bool) (s : State) (op : Op) (h : 
     observe (step strict s op).1 = observe s ∧ (step strict s op).2 = (step strict s op.wet).2 := by
   refine ⟨?_, (forgeLog_resp_wet strict op s).symm⟩
   unfold step observe
-  rcases forgeLog_ending strict op none false s with hu | ⟨st, log, hd, _⟩
+  rcases forgeLog_ending strict op none false s with ⟨hu, _, _⟩ | ⟨_, st, log, _, _, _, hd, _, _, _, _⟩
   · exact hu
   · rw [h] at hd; exact absurd hd (by decide)
 
@@ -39,7 +39,7 @@ theorem dryrun_no_effect_same_answer (strict : Bool) (s : State) (op : Op) (h : 
 theorem idempotent_hit_no_effect (strict : Bool) (s : State) (op : Op)
     (h : (step strict s op).2.hit = true) : observe (step strict s op).1 = observe s := by
   unfold step observe
-  rcases forgeLog_ending strict op none false s with hu | ⟨st, log, _, hc⟩
+  rcases forgeLog_ending strict op none false s with ⟨hu, _, _⟩ | ⟨_, st, log, _, _, _, _, _, _, _, hc⟩
   · exact hu
   · exfalso
     simp [step] at h
@@ -56,7 +56,7 @@ theorem fault_anywhere_no_effect (strict : Bool) (s : State) (op : Op) (k : Nat)
     (h : (stepF strict s op (some ⟨k, kind⟩) commitFault).2.isError = true) :
     observe (stepF strict s op (some ⟨k, kind⟩) commitFault).1 = observe s := by
   unfold stepF observe
-  rcases forgeLog_ending strict op (some ⟨k, kind⟩) commitFault s with hu | ⟨st, log, _, hc⟩
+  rcases forgeLog_ending strict op (some ⟨k, kind⟩) commitFault s with ⟨hu, _, _⟩ | ⟨_, st, log, _, _, _, _, _, _, _, hc⟩
   · exact hu
   · exfalso
     have : (forgeLog strict op (some ⟨k, kind⟩) commitFault s).resp.isError = false := by rw [hc.2]; rfl
@@ -70,7 +70,7 @@ theorem effect_only_on_committed_success (strict : Bool) (s : State) (op : Op) (
     (h : observe (stepF strict s op f cf).1 ≠ observe s) :
     (stepF strict s op f cf).2.isError = false ∧ (stepF strict s op f cf).2.hit = false ∧ op.dry = false := by
   unfold stepF observe at *
-  rcases forgeLog_ending strict op f cf s with hu | ⟨st, log, hd, hc⟩
+  rcases forgeLog_ending strict op f cf s with ⟨hu, _, _⟩ | ⟨_, st, log, _, _, _, hd, _, _, _, hc⟩
   · exact absurd hu h
   · refine ⟨?_, ?_, hd⟩
     · show (forgeLog strict op f cf s).resp.isError = false
